@@ -28,6 +28,7 @@ def t_cap(chk, ix):
     rules_capture.check_fresh_buffers(chk, ix)
     rules_capture.check_captured_switches(chk, ix)
     rules_capture.check_flush_keeps_records(chk, ix)
+    rules_capture.check_teardown_abandons(chk, ix)
 
 
 def run(chk, ix, tier):
